@@ -49,6 +49,11 @@ def c03_r1(ctx):
             pass
     openers = set(n.name for n in ast.walk(f.node) if isinstance(n, ast.FunctionDef) and n is not f.node and
                   any(norm.call_name(c) == "SegmentReader" for c in norm.calls_in(n))) | {"SegmentReader"}
+    # ... and the methods of the same class that open one (the closure turned into a method)
+    opener_methods = [h for h in (f.cls.methods.values() if f.cls is not None else []) if h is not f and
+                      any(norm.call_name(c) == "SegmentReader" for c in norm.calls_in(h.node)) and
+                      any(norm.call_name(c) == h.name for c in norm.calls_in(f.node))]
+    openers |= set(h.name for h in opener_methods)
     for n in ast.walk(f.node):
         if isinstance(n, (ast.ListComp, ast.GeneratorExp)):
             if any(norm.call_name(c) in openers for c in norm.calls_in(n.elt)):
@@ -73,6 +78,15 @@ def c03_r1(ctx):
         if norm.call_name(c) in ("SegmentReader", "MultiReader"):
             g_ = bound_arg(prog, f, c, "generation")
             gens.append((norm.call_name(c), norm.canon(g_) if g_ is not None else None))
+    for h in opener_methods:
+        # the method receives the generation from _reader and hands it to the reader it opens
+        hc = [c for c in norm.calls_in(f.node) if norm.call_name(c) == h.name]
+        passed = all((lambda m_: m_ is not None and "generation" in m_ and norm.canon(m_["generation"]) == "generation")(
+            bind_args(c, h, skip_self=not any(d_ == "staticmethod" for d_ in h.decorators))[0]) for c in hc)
+        for c in norm.calls_in(h.node):
+            if norm.call_name(c) == "SegmentReader":
+                g_ = bound_arg(prog, h, c, "generation")
+                gens.append(("SegmentReader", norm.canon(g_) if g_ is not None and passed else None))
     ctx.ob(f, len(gens) >= 2 and all(g == "generation" for _, g in gens),
            "the TOC generation is handed to every reader constructed", detail=str(gens))
     # FileIndex.reader: one TOC read feeds all three arguments
@@ -491,7 +505,20 @@ def c03_r9(ctx):
         raise AnalysisError("FileIndex._reader: the map of re-usable readers was not found")
     # the closure (or loop) that picks a reader for a segment
     scopes = [x for x in ast.walk(f.node) if isinstance(x, ast.FunctionDef) and x is not f.node] or [f.node]
-    for sc in scopes + ([f.node] if scopes != [f.node] else []):
+    scopes = [(sc_, maps) for sc_ in scopes + ([f.node] if scopes != [f.node] else [])]
+    # ... or a method of the same class that is handed the map (the closure given explicit state): the parameter that receives it
+    # plays the map's role there
+    for c_ in norm.calls_in(f.node):
+        if isinstance(c_.func, ast.Attribute) and norm.canon(c_.func.value) in ("cls", "self", f.cls.name if f.cls else ""):
+            h = prog.lookup(f.cls, c_.func.attr) if f.cls is not None else None
+            if h is None or h is f:
+                continue
+            hp = [p_ for p_ in h.params if p_ not in ("self", "cls")]
+            for i_, a_ in enumerate(c_.args):
+                if norm.canon(a_) in maps and i_ < len(hp):
+                    scopes.append((h.node, set([hp[i_]])))
+                    ctx.saw(h)
+    for sc, maps in scopes:
         takes = []
         for x in ast.walk(sc):
             if isinstance(x, ast.Subscript) and isinstance(x.ctx, ast.Load) and norm.canon(x.value) in maps:
